@@ -387,6 +387,14 @@ func checkC17(raw json.RawMessage) iso.Result {
 				col.Label("fielded-header-with-added-line")
 				continue
 			}
+			// a header whose last sub-field was removed is not set (on every object alike)
+			if len(h.fields) == 0 && op.Kind == "unsetf" && strings.EqualFold(op.Name, name) {
+				if got, ns, err := drv.read(name); err == nil && !ns {
+					col.FailKey("", "after step %d (%+v): no sub-field of %s.http.%s is left, the header still reads %q as set\n history: %s", i, op, c.Obj, name, got, c17History(c, i))
+					return col.Done()
+				}
+				col.Label("checked:header-not-set-after-last-sub-field")
+			}
 			for _, key := range c17Keys {
 				got, ns, err := drv.read(name + ":" + key)
 				if err != nil {
